@@ -89,6 +89,12 @@ example : (sendmsgv (batch 50) [.sent 20, .sent 5, .err 4, .sent 3, .err 11]).re
 example : (sendmsgv (batch 50) [.err 105]).ret = UV_EAGAIN ∧ wireOf (sendmsgv (batch 50) [.err 105]).log = [] := by
   decide
 
+/-- an unsupported address family is rejected by uv__udp_prep_pkt before any system call: UV_EINVAL when nothing
+was sent yet (the former code derived the value from a stale errno), the prefix count otherwise -/
+example : (sendmsgv [⟨0, [8], 3⟩] []).ret = UV_EINVAL ∧ (sendmsgv [⟨0, [8], 1⟩, ⟨1, [8], 3⟩, ⟨2, [8], 1⟩] []).ret = UV_EINVAL
+    ∧ (sendmsgv [⟨0, [8], 1⟩, ⟨1, [8], 3⟩, ⟨2, [8], 1⟩] []).log = [] := by decide
+example : (sendmsgv ((batch 25).set 22 ⟨22, [8], 3⟩) []).ret = 20 := by decide
+
 /-! ### queue_counters_exact -/
 
 /-- `uv_udp_get_send_queue_size/count` equal the bytes/number of requests still owed a callback (completed
